@@ -20,6 +20,7 @@ import (
 type urlPart struct {
 	Lit string    // literal text (when Val == nil)
 	Val ssa.Value // an operand
+	Esc bool      // the operand cannot change the structure of the URL: escaped (url.PathEscape / QueryEscape / Values.Encode) or a formatted number
 }
 
 type urlShape []urlPart
@@ -50,6 +51,17 @@ func (s urlShape) operands() (pre []string, ops []ssa.Value) {
 		cur = ""
 	}
 	return
+}
+
+// escaped: for every operand (in the order of operands()), whether it is structure-safe.
+func (s urlShape) escaped() []bool {
+	var out []bool
+	for _, p := range s {
+		if p.Val != nil {
+			out = append(out, p.Esc)
+		}
+	}
+	return out
 }
 
 func normShape(s urlShape) urlShape {
@@ -165,13 +177,13 @@ func evalShape(v ssa.Value, at *ssa.BasicBlock, depth int) []urlShape {
 				if verbs[i] == "%s" || verbs[i] == "%v" {
 					acc = cross(acc, evalShape(ops[i], x.Block(), depth+1))
 				} else {
-					acc = cross(acc, []urlShape{{urlPart{Val: peel(ops[i])}}})
+					acc = cross(acc, []urlShape{{urlPart{Val: peel(ops[i]), Esc: verbs[i] == "%d"}}})
 				}
 			}
 			acc = cross(acc, []urlShape{{urlPart{Lit: tail}}})
 			return acc
 		case "strconv.Itoa", "strconv.FormatInt", "strconv.FormatUint", "net/url.PathEscape", "net/url.QueryEscape":
-			return []urlShape{{urlPart{Val: peel(x.Call.Args[0])}}}
+			return []urlShape{{urlPart{Val: peel(x.Call.Args[0]), Esc: true}}}
 		case "(net/url.Values).Encode":
 			if q, ok := queryMembers(x.Call.Args[0], x.Block()); ok {
 				var names []string
@@ -184,7 +196,7 @@ func evalShape(v ssa.Value, at *ssa.BasicBlock, depth int) []urlShape {
 					if i > 0 {
 						s = append(s, urlPart{Lit: "&"})
 					}
-					s = append(s, urlPart{Lit: n + "="}, urlPart{Val: q[n]})
+					s = append(s, urlPart{Lit: n + "="}, urlPart{Val: q[n], Esc: true})
 				}
 				return []urlShape{s}
 			}
